@@ -89,6 +89,12 @@ func (m *MonC02) OnEvent(w *World, rec *StepRec) []*Violation {
 			out = append(out, v)
 		}
 	}
+	// (e) a vote that was released is never forgotten across a restart
+	if rec.Restarted {
+		if c, ok := m.granted[nodeTerm{n.ID, post.Term}]; ok && post.Vote != c {
+			out = append(out, &Violation{"C02", "vote-survives-restart", fmt.Sprintf("node %d granted its vote in term %d to %d, but restarted in that term with vote %d", n.ID, post.Term, c, post.Vote)})
+		}
+	}
 	// (c) up-to-date restriction at the step that produces a grant
 	if d := rec.Delivered; d != nil && d.GetType() == pb.MsgVote {
 		granted := false
